@@ -1,1 +1,197 @@
+//! G-FRONTEND — the language-id table of harper-ls (`backend.rs::update_document`), built through
+//! the same public constructors the server uses.
 
+use std::sync::Arc;
+
+use harper_comments::CommentParser;
+use harper_core::parsers::{
+    CollapseIdentifiers, IsolateEnglish, Markdown, MarkdownOptions, Parser, PlainEnglish,
+};
+use harper_core::{Dictionary, FstDictionary, MergedDictionary};
+use harper_html::HtmlParser;
+use harper_literate_haskell::LiterateHaskellParser;
+use harper_typst::Typst;
+use proptest::prelude::*;
+use serde::{Deserialize, Serialize};
+
+#[cfg(hv_has_git_commit)]
+#[path = "/repo/harper-ls/src/git_commit_parser.rs"]
+#[allow(dead_code)]
+mod git_commit_parser;
+
+pub const COMMENT_LANGS: [&str; 22] = [
+    "rust",
+    "typescript",
+    "typescriptreact",
+    "javascript",
+    "javascriptreact",
+    "python",
+    "nix",
+    "go",
+    "c",
+    "cpp",
+    "cmake",
+    "ruby",
+    "swift",
+    "csharp",
+    "toml",
+    "lua",
+    "shellscript",
+    "java",
+    "haskell",
+    "php",
+    "dart",
+    "scala",
+];
+
+pub const MARKUP_LANGS: [&str; 6] = [
+    "plaintext",
+    "markdown",
+    "html",
+    "typst",
+    "literate haskell",
+    "git-commit",
+];
+
+pub fn all_lang_ids() -> Vec<&'static str> {
+    MARKUP_LANGS
+        .iter()
+        .chain(COMMENT_LANGS.iter())
+        .copied()
+        .filter(|l| *l != "git-commit" || has_git_commit())
+        .collect()
+}
+
+pub fn has_git_commit() -> bool {
+    cfg!(hv_has_git_commit)
+}
+
+#[derive(Debug, Clone, Serialize, Deserialize, PartialEq, Eq, Hash)]
+pub struct Frontend {
+    pub lang: String,
+    /// MarkdownOptions.ignore_link_title
+    pub ignore_link_title: bool,
+    /// wrap like the server does: CollapseIdentifiers (comment languages, LHS)
+    pub server_wrappers: bool,
+    /// IsolateEnglish wrapper (server option `isolateEnglish`)
+    pub isolate_english: bool,
+}
+
+impl Frontend {
+    pub fn plain() -> Self {
+        Frontend {
+            lang: "plaintext".into(),
+            ignore_link_title: false,
+            server_wrappers: false,
+            isolate_english: false,
+        }
+    }
+    pub fn of(lang: &str) -> Self {
+        Frontend {
+            lang: lang.into(),
+            ignore_link_title: false,
+            server_wrappers: false,
+            isolate_english: false,
+        }
+    }
+    pub fn is_plain(&self) -> bool {
+        matches!(self.lang.as_str(), "plaintext" | "text" | "mail")
+    }
+    pub fn label(&self) -> String {
+        format!(
+            "{}{}{}{}",
+            self.lang,
+            if self.ignore_link_title { "+ilt" } else { "" },
+            if self.server_wrappers { "+srv" } else { "" },
+            if self.isolate_english { "+iso" } else { "" }
+        )
+    }
+
+    /// Build the parser for `source` and the dictionary documents are created with.
+    pub fn build(&self, source: &[char]) -> Option<(Box<dyn Parser>, Arc<dyn Dictionary>)> {
+        let mut opts = MarkdownOptions::default();
+        opts.ignore_link_title = self.ignore_link_title;
+        let base: Arc<dyn Dictionary> = FstDictionary::curated();
+        let mut dict: Arc<dyn Dictionary> = base.clone();
+        let wrap_ident = |parser: Box<dyn Parser>,
+                          ident: Option<harper_core::MutableDictionary>,
+                          dict: &mut Arc<dyn Dictionary>|
+         -> Box<dyn Parser> {
+            match ident {
+                Some(id) => {
+                    let mut merged = MergedDictionary::new();
+                    merged.add_dictionary(base.clone());
+                    merged.add_dictionary(Arc::new(id));
+                    let merged: Arc<dyn Dictionary> = Arc::new(merged);
+                    *dict = merged.clone();
+                    Box::new(CollapseIdentifiers::new(parser, Box::new(merged)))
+                }
+                None => parser,
+            }
+        };
+        let mut parser: Box<dyn Parser> = match self.lang.as_str() {
+            "plaintext" | "text" | "mail" => Box::new(PlainEnglish),
+            "markdown" => Box::new(Markdown::new(opts)),
+            "html" => Box::new(HtmlParser::default()),
+            "typst" => Box::new(Typst),
+            "literate haskell" | "lhaskell" => {
+                let p = LiterateHaskellParser::new_markdown(opts);
+                if self.server_wrappers {
+                    let ident = p.create_ident_dict(source, opts);
+                    wrap_ident(Box::new(p), ident, &mut dict)
+                } else {
+                    Box::new(p)
+                }
+            }
+            #[cfg(hv_has_git_commit)]
+            "git-commit" | "gitcommit" => {
+                Box::new(git_commit_parser::GitCommitParser::new_markdown(opts))
+            }
+            other => {
+                let p = CommentParser::new_from_language_id(other, opts)?;
+                if self.server_wrappers {
+                    let ident = p.create_ident_dict(source);
+                    wrap_ident(Box::new(p), ident, &mut dict)
+                } else {
+                    Box::new(p)
+                }
+            }
+        };
+        if self.isolate_english {
+            parser = Box::new(IsolateEnglish::new(parser, dict.clone()));
+        }
+        Some((parser, dict))
+    }
+}
+
+pub fn lang_strategy() -> BoxedStrategy<String> {
+    // exploration aid (not used by registered commands): restrict to one language
+    if let Ok(l) = std::env::var("HV_LANG") {
+        return Just(l).boxed();
+    }
+    let ids = all_lang_ids();
+    let n = ids.len();
+    prop_oneof![
+        // plain + markdown get a bigger share: they are the most used front-ends
+        2 => Just("plaintext".to_string()),
+        2 => Just("markdown".to_string()),
+        8 => (0..n).prop_map(move |i| ids[i].to_string()),
+    ]
+    .boxed()
+}
+
+pub fn frontend_strategy() -> BoxedStrategy<Frontend> {
+    (
+        lang_strategy(),
+        any::<bool>(),
+        prop::bool::weighted(0.35),
+        prop::bool::weighted(0.15),
+    )
+        .prop_map(|(lang, ilt, srv, iso)| Frontend {
+            lang,
+            ignore_link_title: ilt,
+            server_wrappers: srv,
+            isolate_english: iso,
+        })
+        .boxed()
+}
